@@ -109,9 +109,30 @@ fn av_alphabet() -> Vec<(String, Vec<u8>)> {
     for b in 0..32 {
         v.push((format!("flags bit {} toggled", b), challenge_with(rn::DEFAULT_FLAGS ^ (1 << b), &ti, None, None, None, None)));
     }
+    // well-formed but very large target information (everything really present): the answer's length fields are
+    // 16-bit, so the client cannot answer these; it must fail cleanly, not crash
+    for total in [4000usize, 32767, 32768, 65000, 65400, 65480, 65491, 65492, 65500, 65519] {
+        let fill = total - 12 - 4 - 4;
+        let ti = rn::av_bytes(&[ts.clone(), (rn::AV_DNS_DOMAIN, vec![0x41; fill])], true);
+        v.push((format!("well-formed target info of {} bytes", ti.len()), challenge_with(rn::DEFAULT_FLAGS, &ti, None, None, None, None)));
+    }
+    // TargetInfoMaxLen differing from TargetInfoLen
+    for (len, max) in [(16u16, 0u16), (16, 15), (16, 17), (16, 0xFFFF), (0, 16)] {
+        let ti = rn::av_bytes(&[ts.clone()], true);
+        let mut c = challenge_with(rn::DEFAULT_FLAGS, &ti, Some(len), None, None, None);
+        // TargetInfoFields: Len at 40, MaxLen at 42
+        c[42..44].copy_from_slice(&max.to_le_bytes());
+        v.push((format!("target info len {} maxlen {}", len, max), c));
+    }
     v.push(("empty target info".into(), challenge_with(rn::DEFAULT_FLAGS, &[], None, None, None, None)));
     v.push(("duplicate timestamp".into(), challenge_with(rn::DEFAULT_FLAGS, &rn::av_bytes(&[ts.clone(), ts.clone()], true), None, None, None, None)));
     v
+}
+
+fn many_tokens(tok: &[u8], n: usize) -> Vec<u8> {
+    use vref::der;
+    let item = der::seq(&[der::explicit(0, &der::octets(tok))]);
+    der::seq(&[der::explicit(0, &der::integer(2)), der::explicit(1, &der::seq(&vec![item; n]))])
 }
 
 fn ts_variants() -> Vec<(String, Vec<u8>)> {
@@ -130,6 +151,12 @@ fn ts_variants() -> Vec<(String, Vec<u8>)> {
         ("length 2^32-1".into(), vec![0x30, 0x84, 0xFF, 0xFF, 0xFF, 0xFF, 0xa0, 0x03, 0x02, 0x01, 0x02]),
         ("length 2^63".into(), vec![0x30, 0x88, 0x80, 0, 0, 0, 0, 0, 0, 0, 0xa0]),
         ("octet string length 2^31".into(), vec![0x30, 0x10, 0xa0, 0x03, 0x02, 0x01, 0x02, 0xa3, 0x09, 0x04, 0x84, 0x80, 0, 0, 0, 1, 2, 3]),
+        ("3 negoTokens".into(), many_tokens(&tok, 3)),
+        ("63 negoTokens".into(), many_tokens(&tok, 63)),
+        ("64 negoTokens".into(), many_tokens(&tok, 64)),
+        ("65 negoTokens".into(), many_tokens(&tok, 65)),
+        ("256 negoTokens".into(), many_tokens(&tok, 256)),
+        ("1000 empty negoTokens items".into(), vref::der::seq(&[vref::der::explicit(0, &vref::der::integer(2)), vref::der::explicit(1, &vref::der::seq(&vec![vref::der::seq(&[]); 1000]))])),
         ("deep nesting".into(), {
             let mut v = vec![0x02, 0x01, 0x02];
             for _ in 0..200 {
@@ -248,7 +275,7 @@ impl Prop for C07 {
         }})
     }
     fn rule(&self) -> String {
-        "cases: [e2e-*] the real cssp_connect inside the real Connector::connect over real TLS against the reference CredSSP server whose CHALLENGE TSRequest carries every single deviation (byte x value set, 16/32-bit boundary fields at every offset in both byte orders, truncations, extensions), whose pubKeyAuth reply carries {00, FF, truncate} at every offset, an AV-pair alphabet (every id 0..0x0C, 0xFF, 0x100, 0x7FFF, 0x8000, 0xFFFF x declared lengths {0,1,2,8,0xFFFF} x present bytes x with/without timestamp x with/without EOL; target-info/target-name descriptors at their boundaries; every flag bit toggled), TSRequest shapes (empty/missing/double negoTokens, errorCode, indefinite and 2^31/2^32/2^63 lengths, 200-deep nesting) in both rounds, and 19 server certificates (RSA-2048/4096, EC P-256, Ed25519, critical unknown extension, 20-byte / 40-byte / negative serial, empty subject, and DER-edited ones: X.509 v1, version 4, GeneralizedTime, invalid UTCTime, non-zero unused bits, BMPString / T61String subject, duplicate / empty extensions) with checking on/off; [direct-*] the same inputs, every single deviation with all 256 byte values, and every byte string of length <=2 (<=3) plus 3..5 (..6) byte strings over 8 boundary bytes, fed directly to read_ts_server_challenge, Ntlm::read_challenge_message, read_ts_validate and gss_unwrapex; thorough adds all pairs of {00, FF, truncate} faults on the direct entries. Oracle: returns; no panic/abort/hang; allocation rule.".into()
+        "cases: [e2e-*] the real cssp_connect inside the real Connector::connect over real TLS against the reference CredSSP server whose CHALLENGE TSRequest carries every single deviation (byte x value set, 16/32-bit boundary fields at every offset in both byte orders, truncations, extensions), whose pubKeyAuth reply carries {00, FF, truncate} at every offset, an AV-pair alphabet (every id 0..0x0C, 0xFF, 0x100, 0x7FFF, 0x8000, 0xFFFF x declared lengths {0,1,2,8,0xFFFF} x present bytes x with/without timestamp x with/without EOL; target-info/target-name descriptors at their boundaries; every flag bit toggled), TSRequest shapes (empty/missing/double negoTokens, 3/63/64/65/256/1000 negoTokens items, well-formed target information of 4000..65519 bytes, TargetInfoMaxLen != TargetInfoLen, errorCode, indefinite and 2^31/2^32/2^63 lengths, 200-deep nesting) in both rounds, and 19 server certificates (RSA-2048/4096, EC P-256, Ed25519, critical unknown extension, 20-byte / 40-byte / negative serial, empty subject, and DER-edited ones: X.509 v1, version 4, GeneralizedTime, invalid UTCTime, non-zero unused bits, BMPString / T61String subject, duplicate / empty extensions) with checking on/off; [direct-*] the same inputs, every single deviation with all 256 byte values, and every byte string of length <=2 (<=3) plus 3..5 (..6) byte strings over 8 boundary bytes, fed directly to read_ts_server_challenge, Ntlm::read_challenge_message, read_ts_validate and gss_unwrapex; thorough adds all pairs of {00, FF, truncate} faults on the direct entries. Oracle: returns; no panic/abort/hang; allocation rule.".into()
     }
     fn assumptions(&self) -> Vec<String> {
         vec!["memory rule: single request > 1 MiB or peak > 16 MiB + 1024 x bytes received".into()]
